@@ -217,4 +217,68 @@ def rtCls (S : StrFns) (camel : Bool) (lv : LevelPred) (c : Cls) (ms : MDict) (o
       && rtFields S camel lv ms (aggregate S false c.own c.fields ov camel) c.fields kvs
   | _ => false
 
+/-! ### the resolved mapper of every level *is* the pointwise specification (serializer side) -/
+
+mutual
+/-- distinct field names at every nested level -/
+def subsOK : List Fld → Bool
+  | [] => true
+  | f :: fs => subOK f && subsOK fs
+termination_by structural fs => fs
+def subOK : Fld → Bool
+  | .scalar _ _ => true
+  | .nested _ _ _ _ fs => nodupB (fs.map Fld.name) && subsOK fs
+termination_by structural f => f
+end
+
+/-- a class tree with pairwise distinct field names at every level (always true of Python classes) -/
+def wfFields (fs : List Fld) : Bool := nodupB (fs.map Fld.name) && subsOK fs
+
+mutual
+/-- the resolved mapper `d` of a level agrees with the mapper list `L` on the fields `fs`: every field's
+    entry is `keyOf L`, and the `"<field>._mapper"` entry of a nested field agrees, recursively, with
+    the list `nestedList` prescribes for the nested level -/
+def AgreesFs (S : StrFns) : MDict → List Mapper → List Fld → Prop
+  | _, _, [] => True
+  | d, L, f :: fs => AgreesF S d L f ∧ AgreesFs S d L fs
+termination_by structural _ _ fs => fs
+def AgreesF (S : StrFns) : MDict → List Mapper → Fld → Prop
+  | d, L, .scalar n _ => lookupR (.fld n) d = some (keyOf S L n)
+  | d, L, .nested n _ _ own fs =>
+    lookupR (.fld n) d = some (keyOf S L n) ∧
+      ∃ p, lookupR (.nest n) d = some (.sub p) ∧ AgreesFs S p (nestedList own n L) fs
+termination_by structural _ _ f => f
+end
+
+def isScalarJ : J → Bool
+  | .null => true
+  | .int _ => true
+  | .str _ => true
+  | _ => false
+
+mutual
+/-- instance `x` (attributes in any order) fits the class fields `fs`: a structure position holds an
+    object (or a list of objects) whose keys are field names, scalar fields hold scalars, nested
+    fields hold nothing or fitting structures -/
+def conf : List Fld → J → Bool
+  | fs, .obj kvs => confKvs fs kvs
+  | fs, .arr xs => confList fs xs
+  | _, .null => false
+  | _, .int _ => false
+  | _, .str _ => false
+termination_by structural _ x => x
+def confKvs : List Fld → List (String × J) → Bool
+  | _, [] => true
+  | fs, (f, v) :: rest =>
+    (match findFld fs f with
+     | some (.nested _ _ _ _ fs') => v.isNull || conf fs' v
+     | some (.scalar _ _) => isScalarJ v
+     | none => false) && confKvs fs rest
+termination_by structural _ kvs => kvs
+def confList : List Fld → List J → Bool
+  | _, [] => true
+  | fs, x :: xs => conf fs x && confList fs xs
+termination_by structural _ xs => xs
+end
+
 end Typedpy.Mappers
